@@ -605,7 +605,7 @@ fn sampling_part(res: &mut PartResult) {
 fn seq_part(ctx: &Ctx, res: &mut PartResult, depth: usize, aggressive: bool, as_dist: bool) {
     res.engine = "E3 all update/flush sequences up to the depth through the real handles + State::flush + PayloadWriter vs. an exact reference model".into();
     let mut states = vcore::vseq::States::new();
-    const OPS: [&str; 10] = ["flush", "ci.increment(3)", "ca.absolute(next)", "gau.set(2.5)", "gau.increment(1)", "gau.decrement(0.25)", "his.record(k)", "ci.increment(0)", "his.record x 70 (more than one bucket block)", "ci{route=b}.increment(3) (a second counter under the same name)"];
+    const OPS: [&str; 11] = ["flush", "ci.increment(3)", "ca.absolute(next)", "gau.set(2.5)", "gau.increment(1)", "gau.decrement(0.25)", "his.record(k)", "ci.increment(0)", "his.record x 70 (more than one bucket block)", "ci{route=b}.increment(3) (a second counter under the same name)", "ci.increment(u64::MAX - 7) (the running total passes 2^64: deltas are exact modulo 2^64)"];
     let mut run = |seq: &[usize]| -> Option<usize> {
         let (mut drv, rec) = Driver::new(aggressive, false, 16, as_dist, vec![], None, 8192, false);
         let ci = rec.register_counter(&Key::from_name("ci"), &META);
@@ -630,7 +630,7 @@ fn seq_part(ctx: &Ctx, res: &mut PartResult, depth: usize, aggressive: bool, as_
             match op {
                 1 => {
                     ci.increment(3);
-                    ci_pend += 3;
+                    ci_pend = ci_pend.wrapping_add(3);
                 }
                 2 => {
                     ca.absolute(next_abs);
@@ -659,6 +659,10 @@ fn seq_part(ctx: &Ctx, res: &mut PartResult, depth: usize, aggressive: bool, as_
                     next_rec += 1.0;
                 }
                 7 => ci.increment(0),
+                10 => {
+                    ci.increment(u64::MAX - 7);
+                    ci_pend = ci_pend.wrapping_add(u64::MAX - 7);
+                }
                 9 => {
                     cb.increment(3);
                     cb_pend += 3;
@@ -975,7 +979,7 @@ fn main() {
     driver::main(CheckDef {
         prop: "C10",
         level: "model_checking",
-        rule: "E1: every SC interleaving (pb-bounded; 1 registry shard) of updater threads (increment / absolute / set / record through real handles) with a flusher thread driving the real State::flush + PayloadWriter, one initial and three final sequential flushes; every payload parsed by an independent DogStatsD parser; oracle: delta conservation, per-flush upper bound, zero discipline, most-recent gauge, histogram exactly-once, timestamp per documented mode; E3: every sequence (depth 5 quick / 7 thorough) over {flush, ci.increment(3), ci.increment(0), ca.absolute(next), gau.set, gau.increment, gau.decrement, his.record} + 2 final flushes, sequentially, against an exact reference model of what each flush must send; E4: transports {unix stream, unixgram, udp} x modes x prefix/labels/distribution configurations through the real forwarder thread into real sockets (framing, one message per datagram/frame, timestamp), and a fault history on the stream transport (agent stalls, a payload larger than the socket buffer is cut short by the write timeout, agent resumes: every stream received is whole well-formed frames); distinct = distinct send sequences / received message sets",
+        rule: "E1: every SC interleaving (pb-bounded; 1 registry shard) of updater threads (increment / absolute / set / record through real handles) with a flusher thread driving the real State::flush + PayloadWriter, one initial and three final sequential flushes; every payload parsed by an independent DogStatsD parser; oracle: delta conservation, per-flush upper bound, zero discipline, most-recent gauge, histogram exactly-once, timestamp per documented mode; E3: every sequence (depth 5 quick / 7 thorough) over {flush, ci.increment(3), ci.increment(0), ci.increment(u64::MAX - 7), ca.absolute(next), a second counter of the same name with a label, gau.set, gau.increment, gau.decrement, his.record, 70 records at once} + 2 final flushes, sequentially, against an exact reference model of what each flush must send; E4: transports {unix stream, unixgram, udp} x modes x prefix/labels/distribution configurations through the real forwarder thread into real sockets (framing, one message per datagram/frame, timestamp), and a fault history on the stream transport (agent stalls, a payload larger than the socket buffer is cut short by the write timeout, agent resumes: every stream received is whole well-formed frames); distinct = distinct send sequences / received message sets",
         assumptions: &["E1: sequential consistency; the flush is driven synchronously (Driver::flush_once) instead of by the sleeping forwarder thread", "E4: the forwarder thread's flush cadence is timing-driven (40 ms); only framing/content/timestamps are judged there, with a 20 s timeout reported as a violation of 'the agent socket receives these messages'"],
         parts,
         run,
